@@ -277,7 +277,12 @@ func stressRun(run *ev.Run, r, gmp, nl, perClient int, dnsMode bool, seenSig map
 			cl := name
 			var raw []byte
 			if tcp {
-				raw = mkReq(id, fmt.Sprintf("SIP/2.0/TCP %s", conn.Local))
+				if idx%2 == 1 {
+					// like several clients behind one address: same sent-by port, no rport
+					raw = []byte(strings.Replace(string(mkReq(id, fmt.Sprintf("SIP/2.0/TCP %s:5060", ip))), ";rport", "", 1))
+				} else {
+					raw = mkReq(id, fmt.Sprintf("SIP/2.0/TCP %s", conn.Local))
+				}
 				cl = fmt.Sprintf("%s#%d", name, conn.ID)
 			} else {
 				raw = mkReq(id, fmt.Sprintf("SIP/2.0/UDP %s", udp.Addr))
